@@ -275,6 +275,9 @@ def file_ok(name):
 def impl_oracle(c):
     if c.get("crash"):
         return ("impl:crash", "panic: %s" % c["crash"][:200])
+    if c.get("arg_mod"):
+        return ("impl:arguments-modified", "an argument passed by reference was changed by the call: %s"
+                % c["arg_mod"][:300])
     op = c["op"]
     if op in ("fileset", "build") and c.get("outside"):
         how = sorted(set(outside_mechanism(c, n) for n in c["outside"]))
